@@ -147,6 +147,12 @@ Front(k, e) ==
             \o (IF e.exit # e.want_exit THEN <<V(k, "C13", <<"exit status", e.exit, "expected", e.want_exit, e.what>>)>> ELSE <<>>)
             \o (IF e.files # e.want_files THEN <<V(k, "C13", <<"files written differ from 0.pkl..N-1.pkl", e.what>>)>> ELSE <<>>)
             \o (IF e.got # e.lib THEN <<V(k, "C13", <<"front-end bytes differ from library bytes", e.what>>)>> ELSE <<>>)
+            \* C05 at the front ends: header and vocabulary of the protocol the options denote
+            \o (IF "gotb" \in DOMAIN e /\ Len(e.gotb) >= 2 /\ e.libcfg.unsafe = 0
+                   /\ ( (e.libcfg.P >= 2 /\ (e.gotb[1] # 128 \/ e.gotb[2] # e.libcfg.P))
+                      \/ (e.libcfg.P < 2 /\ e.gotb[1] = 128)
+                      \/ \E o \in ops' : o < 256 /\ OpProto(o) > e.libcfg.P )
+                THEN <<V(k, "C05", <<"front-end output is not a pickle of the protocol the options denote", e.libcfg.P, e.what>>)>> ELSE <<>>)
             \* C06 at the front ends: the file a front end wrote is the pickle, so its FRAME must span exactly the rest of the FILE
             \o (IF "gotb" \in DOMAIN e /\ ~FrameSpansRest(e.gotb)
                 THEN <<V(k, "C06", <<"front-end output: FRAME length differs from the number of bytes that follow in the file", e.what>>)>> ELSE <<>>)
